@@ -246,3 +246,87 @@ theorem card_fibre (v : BitVec 64) [Fintype {x : S // outPlusPlus x = v}] :
   norm_num
 
 end Urandom.XoOut
+
+namespace Urandom.XoOut
+open Function Urandom.Xoshiro
+
+/-! ### the fibres of the `+` scrambler followed by a right shift (32-bit words, unit floats) -/
+
+/-- `next_u32`, `next_f32`, `next_f64` are the top `64 - k` bits of `s0 + s3` (k = 32, 41, 12) -/
+def outPlusShift (k : ℕ) (s : S) : BitVec 64 := (s.s0 + s.s3) >>> k
+
+/-- the 64-bit words whose top bits are `…0001`: exactly the `2^k` numbers in `[2^k, 2^(k+1))` -/
+def topOneEquiv (k : ℕ) (hk : k < 64) : {w : BitVec 64 // w >>> k = 1#64} ≃ {n : ℕ // n ∈ Finset.Ico (2 ^ k) (2 ^ (k + 1))} where
+  toFun w := ⟨w.1.toNat, by
+    have h := congrArg BitVec.toNat w.2
+    rw [BitVec.toNat_ushiftRight, Nat.shiftRight_eq_div_pow] at h
+    have h1 : (1#64 : BitVec 64).toNat = 1 := by decide
+    rw [h1] at h
+    have hp : 0 < 2 ^ k := Nat.pos_of_ne_zero (by positivity)
+    rw [Finset.mem_Ico, pow_succ]
+    constructor
+    · by_contra hlt
+      rw [Nat.div_eq_of_lt (by omega)] at h
+      omega
+    · by_contra hge
+      have : 2 ≤ w.1.toNat / 2 ^ k := (Nat.le_div_iff_mul_le hp).2 (by omega)
+      omega⟩
+  invFun n := ⟨BitVec.ofNat 64 n.1, by
+    have hn := Finset.mem_Ico.1 n.2
+    have hlt : n.1 < 2 ^ 64 := lt_of_lt_of_le hn.2 (Nat.pow_le_pow_right (by decide) (by omega))
+    apply BitVec.eq_of_toNat_eq
+    rw [BitVec.toNat_ushiftRight, Nat.shiftRight_eq_div_pow, BitVec.toNat_ofNat, Nat.mod_eq_of_lt hlt]
+    have h1 : (1#64 : BitVec 64).toNat = 1 := by decide
+    rw [h1]
+    have hp : 0 < 2 ^ k := Nat.pos_of_ne_zero (by positivity)
+    have hn2 : n.1 < 2 ^ k * 2 := lt_of_lt_of_eq hn.2 (pow_succ 2 k)
+    apply Nat.div_eq_of_lt_le <;> omega⟩
+  left_inv w := by
+    apply Subtype.ext
+    show BitVec.ofNat 64 w.1.toNat = w.1
+    apply BitVec.eq_of_toNat_eq
+    rw [BitVec.toNat_ofNat, Nat.mod_eq_of_lt w.1.isLt]
+  right_inv n := by
+    apply Subtype.ext
+    have hn := Finset.mem_Ico.1 n.2
+    have hlt : n.1 < 2 ^ 64 := lt_of_lt_of_le hn.2 (Nat.pow_le_pow_right (by decide) (by omega))
+    show (BitVec.ofNat 64 n.1).toNat = n.1
+    rw [BitVec.toNat_ofNat, Nat.mod_eq_of_lt hlt]
+
+theorem card_topOne (k : ℕ) (hk : k < 64) [Fintype {w : BitVec 64 // w >>> k = 1#64}] :
+    Fintype.card {w : BitVec 64 // w >>> k = 1#64} = 2 ^ k := by
+  rw [Fintype.card_congr (topOneEquiv k hk), Fintype.card_coe, Nat.card_Ico, pow_succ]
+  omega
+
+/-- the states whose shifted `+` output is `1`: first three words free, the sum `s0 + s3` in the fibre above -/
+def plusFibreEquiv (k : ℕ) : {x : S // outPlusShift k x = 1#64} ≃
+    (BitVec 64 × BitVec 64 × BitVec 64) × {w : BitVec 64 // w >>> k = 1#64} where
+  toFun x := ((x.1.s0, x.1.s1, x.1.s2), ⟨x.1.s0 + x.1.s3, x.2⟩)
+  invFun t := ⟨⟨t.1.1, t.1.2.1, t.1.2.2, t.2.1 - t.1.1⟩, by
+    show (t.1.1 + (t.2.1 - t.1.1)) >>> k = 1#64
+    have : t.1.1 + (t.2.1 - t.1.1) = t.2.1 := by
+      rw [BitVec.add_comm, BitVec.sub_add_cancel]
+    rw [this]; exact t.2.2⟩
+  left_inv x := by
+    obtain ⟨⟨a, b, c, d⟩, hx⟩ := x
+    apply Subtype.ext
+    show (⟨a, b, c, a + d - a⟩ : S) = ⟨a, b, c, d⟩
+    congr 1
+    rw [BitVec.add_comm, BitVec.add_sub_cancel]
+  right_inv t := by
+    obtain ⟨⟨a, b, c⟩, ⟨w, hw⟩⟩ := t
+    apply Prod.ext
+    · rfl
+    · apply Subtype.ext
+      show a + (w - a) = w
+      rw [BitVec.add_comm, BitVec.sub_add_cancel]
+
+theorem card_plusFibre (k : ℕ) (hk : k < 64) [Fintype {x : S // outPlusShift k x = 1#64}] :
+    Fintype.card {x : S // outPlusShift k x = 1#64} = 2 ^ (192 + k) := by
+  classical
+  rw [Fintype.card_congr (plusFibreEquiv k), Fintype.card_prod, card_topOne k hk]
+  simp only [Fintype.card_prod, card_bitvec]
+  rw [pow_add]
+  norm_num
+
+end Urandom.XoOut
